@@ -18,12 +18,16 @@ func init() { register(&Spec{ID: "C02", Targets: []load.Target{load.Linux}, Run:
 
 func runC02(c *core.Ctx) {
 	runFixtures(c, "bounds", "drop")
-	c.Explain("Bytes, offsets and EOF timing are values and not decidable statically. Decided mechanisms: (R02.1) access-mode capability: no method of the read-only handle wrapper reaches a content mutator (blob.Set/Grow/Truncate), no method of the write-only wrapper reaches a content reader (blob.View/Slice), over the static call graph — a read-only handle can never change contents, a write-only handle can never read them; (R02.2) directory guard as sibling agreement: every byte-I/O method of the file type that touches the content blob (read, write, truncate) has an IsDir() guard before the blob access whose taken edge returns an ErrIsDir-class error; (R02.3) live size: in the methods that compare an offset/size parameter with the file size, the size is the length of the content loaded in that call (a Size() of the record cached at open time is flagged), so every handle sees the current size; (R02.4) validate before mutate: on every path of the write and truncate methods the first content mutator is dominated by the rejection of a negative offset/size. NOT claimed: transferred bytes, offsets, EOF exactness, zero fill, O_APPEND placement, coherence beyond R02.3.")
+	c.Explain("Bytes, offsets and EOF timing are values and not decidable statically. Decided mechanisms: (R02.1) access-mode capability: no method of the read-only handle wrapper reaches a content mutator (blob.Set/Grow/Truncate), no method of the write-only wrapper reaches a content reader (blob.View/Slice), over the static call graph — a read-only handle can never change contents, a write-only handle can never read them; (R02.2) directory guard as sibling agreement: every byte-I/O method of the file type that touches the content blob (read, write, truncate) has an IsDir() guard before the blob access whose taken edge returns an ErrIsDir-class error; (R02.3) live size: in the methods that compare an offset/size parameter with the file size, the size is the length of the content loaded in that call (a Size() of the record cached at open time is flagged), so every handle sees the current size; (R02.4) validate before mutate: on every path of the write and truncate methods the first content mutator is dominated by the rejection of a negative offset/size. (R02.5) a write method that redirects its offset to the content length under the O_APPEND test hands the redirected offset back (result or handle field), so the handle's position ends at the new end of file; (R02.6) every content mutation of a write is dominated by 'the data is not empty' — an empty write beyond the end must not grow the file; (R02.7) the handle's Stat loads the content before returning a regular file's info, so Size() is current; (R02.8) a method that passes its own offset parameter to the write primitive (a positioned write) does so only below a test of the append flag whose other side returns an error — os.File refuses WriteAt on an O_APPEND handle, and silently appending instead would put the bytes somewhere else than asked. NOT claimed: transferred bytes, offsets, EOF exactness, zero fill, O_APPEND placement, coherence beyond R02.3.")
 	c.Assume("the static call graph is complete for these wrappers (they call the inner *file statically)")
 	c.RuleDoc("R02.1", "access-mode wrappers cannot reach forbidden content operations")
 	c.RuleDoc("R02.2", "directory guard on every byte-I/O method")
 	c.RuleDoc("R02.3", "size compared against parameters is the live content length")
 	c.RuleDoc("R02.4", "negative offset/size rejected before the first mutation")
+	c.RuleDoc("R02.5", "an offset redirected by O_APPEND is handed back to the caller that advances the handle")
+	c.RuleDoc("R02.6", "an empty write mutates nothing")
+	c.RuleDoc("R02.8", "a positioned write refuses a handle opened with O_APPEND")
+	c.RuleDoc("R02.7", "a handle's Stat loads the content, so the size it reports is current")
 	for _, p := range c.Progs {
 		c.SetProg(p)
 		fileT := p.Named("keyvalue", "file")
@@ -33,11 +37,17 @@ func runC02(c *core.Ctx) {
 		}
 		r02Wrappers(c, p, fileT)
 		r02Methods(c, p, fileT)
+		r02StatLive(c, p, fileT)
+		r02PositionedAppend(c, p, fileT)
 	}
 	c.Floor("R02.1", 2)
 	c.Floor("R02.2", 3)
 	c.Floor("R02.3", 3)
 	c.Floor("R02.4", 2)
+	c.Floor("R02.5", 1)
+	c.Floor("R02.6", 1)
+	c.Floor("R02.7", 1)
+	c.Floor("R02.8", 1)
 }
 
 func blobFuncs(p *load.Program, names ...string) map[*ssa.Function]bool {
@@ -194,6 +204,23 @@ func r02Methods(c *core.Ctx, p *load.Program, fileT *types.Named) {
 		if len(firstMut) == 0 {
 			continue
 		}
+		// ---- R02.6: a write of nothing changes nothing (no growth beyond the end) ----
+		for _, prm := range fn.Params[1:] {
+			if _, isI := prm.Type().Underlying().(*types.Interface); !isI || !hasMethods(prm.Type(), "Len", "Bytes") {
+				continue
+			}
+			k6 := typeKey(fileT) + "." + name + "|empty-write-before-mutate:" + prm.Name()
+			bad := ""
+			for _, m := range firstMut {
+				if !nonEmptyAt(m, prm) {
+					bad = p.Pos(m.Pos())
+				}
+			}
+			c.Check(bad == "", "R02.6", k6, p.Pos(fn.Pos()), fmt.Sprintf("every content mutation is dominated by '%s is not empty'", prm.Name()),
+				fmt.Sprintf("%s: the content mutation at %s can run for an empty %s: a zero-length write at an offset beyond the end grows the file, where os.File leaves the size unchanged", fname(fn), bad, prm.Name()))
+		}
+		// ---- R02.5: an offset redirected to the end of the file (O_APPEND) is handed back to the caller ----
+		r02AppendOffset(c, p, fileT, fn)
 		for _, prm := range fn.Params[1:] {
 			bt, ok := prm.Type().Underlying().(*types.Basic)
 			if !ok || bt.Kind() != types.Int64 {
@@ -317,3 +344,277 @@ func r02LiveSize(c *core.Ctx, p *load.Program, fileT *types.Named, fn *ssa.Funct
 }
 
 var _ = token.ADD
+
+// nonEmptyAt: a dominating fact says Len() of the blob parameter is not zero.
+func nonEmptyAt(at ssa.Instruction, prm *ssa.Parameter) bool {
+	for _, f := range ssax.FactsAtInstr(at) {
+		bo, ok := f.Cond.(*ssa.BinOp)
+		if !ok {
+			continue
+		}
+		isLen := func(v ssa.Value) bool {
+			v = ssax.StripIntConv(v)
+			cl, ok := v.(*ssa.Call)
+			if !ok {
+				return false
+			}
+			if cl.Call.IsInvoke() && cl.Call.Method.Name() == "Len" && cl.Call.Value == ssa.Value(prm) {
+				return true
+			}
+			if b, ok := cl.Call.Value.(*ssa.Builtin); ok && b.Name() == "len" && len(cl.Call.Args) == 1 && cl.Call.Args[0] == ssa.Value(prm) {
+				return true
+			}
+			return false
+		}
+		zero := func(v ssa.Value) bool { k, ok := ssax.ConstInt(v); return ok && k == 0 }
+		var lenSide, other ssa.Value
+		switch {
+		case isLen(bo.X):
+			lenSide, other = bo.X, bo.Y
+		case isLen(bo.Y):
+			lenSide, other = bo.Y, bo.X
+		default:
+			continue
+		}
+		_ = lenSide
+		if !zero(other) {
+			continue
+		}
+		switch bo.Op {
+		case token.EQL:
+			if !f.Val {
+				return true
+			}
+		case token.NEQ, token.GTR:
+			if f.Val && (bo.Op == token.NEQ || isLen(bo.X)) {
+				return true
+			}
+		case token.LEQ:
+			if !f.Val && isLen(bo.X) {
+				return true
+			}
+		}
+	}
+	return false
+}
+
+// r02AppendOffset (R02.5): in a method that redirects an offset parameter to the content length under a test of the
+// append flag, the redirected offset (the phi of the parameter and the length) reaches a result of the method or a
+// store into the handle — otherwise the caller advances the handle from the stale offset and the next read or write
+// through an O_APPEND handle happens in the middle of the file.
+func r02AppendOffset(c *core.Ctx, p *load.Program, fileT *types.Named, fn *ssa.Function) {
+	appendK := constOf(p, "FlagAppend")
+	if appendK == 0 {
+		return
+	}
+	for _, prm := range fn.Params[1:] {
+		bt, ok := prm.Type().Underlying().(*types.Basic)
+		if !ok || bt.Kind() != types.Int64 {
+			continue
+		}
+		// the phi merging the parameter with another value, below a test of flag&FlagAppend
+		var redirected *ssa.Phi
+		ssax.Instrs(fn, func(ins ssa.Instruction) {
+			ph, ok := ins.(*ssa.Phi)
+			if !ok || redirected != nil {
+				return
+			}
+			hasParam := false
+			for _, e := range ph.Edges {
+				if e == ssa.Value(prm) {
+					hasParam = true
+				}
+			}
+			if !hasParam {
+				return
+			}
+			// one predecessor ends in a test involving & FlagAppend
+			for _, pb := range ph.Block().Preds {
+				for _, cand := range append([]*ssa.BasicBlock{pb}, pb.Preds...) {
+					if ifi, ok := cand.Instrs[len(cand.Instrs)-1].(*ssa.If); ok && mentionsConst(ifi.Cond, appendK, 0) {
+						redirected = ph
+					}
+				}
+			}
+		})
+		if redirected == nil {
+			continue
+		}
+		key := typeKey(fileT) + "." + fn.Name() + "|append-offset-handed-back:" + prm.Name()
+		handed := false
+		if redirected.Referrers() != nil {
+			for _, r := range *redirected.Referrers() {
+				switch x := r.(type) {
+				case *ssa.Return:
+					handed = true
+				case *ssa.Store:
+					if _, ok := x.Addr.(*ssa.FieldAddr); ok && x.Val == ssa.Value(redirected) {
+						handed = true
+					}
+				case *ssa.Phi:
+					// spilled results (named results / defer): the phi flows into the result cell
+					if x.Referrers() != nil {
+						for _, rr := range *x.Referrers() {
+							if _, ok := rr.(*ssa.Return); ok {
+								handed = true
+							}
+						}
+					}
+				}
+			}
+		}
+		c.Check(handed, "R02.5", key, p.Pos(redirected.Pos()), "the offset the write was made at is returned (or stored in the handle)",
+			fmt.Sprintf("%s moves %s to the end of the file for a handle opened with O_APPEND but never hands that offset back: the caller advances the handle's position from the stale offset, so after an append the next sequential read or write happens in the middle of the file (os.File leaves the offset at the new end)", fname(fn), prm.Name()))
+	}
+}
+
+// mentionsConst: v's operand tree contains the integer constant k.
+func mentionsConst(v ssa.Value, k int64, d int) bool {
+	if d > 5 || v == nil {
+		return false
+	}
+	if c, ok := ssax.ConstInt(v); ok && c == k {
+		return true
+	}
+	switch x := v.(type) {
+	case *ssa.BinOp:
+		return mentionsConst(x.X, k, d+1) || mentionsConst(x.Y, k, d+1)
+	case *ssa.UnOp:
+		return mentionsConst(x.X, k, d+1)
+	case *ssa.Convert:
+		return mentionsConst(x.X, k, d+1)
+	}
+	return false
+}
+
+// r02StatLive (R02.7): the handle's Stat loads the content on every path that returns an info for a non-directory,
+// so that the size it reports is the file's current size (the record's cached size is the size at open time).
+func r02StatLive(c *core.Ctx, p *load.Program, fileT *types.Named) {
+	fn := methodsOf(p, fileT)["Stat"]
+	if fn == nil || fn.Blocks == nil {
+		c.Hard("anchor: keyvalue.file.Stat")
+		return
+	}
+	key := typeKey(fileT) + ".Stat|loads-content"
+	var badRet *ssa.Return
+	ssax.EnumPaths(fn, fn.Blocks[0], 0, nil, ssax.PathHooks{
+		Instr: func(s *ssax.PathState, ins ssa.Instruction) {
+			if cl, ok := ins.(*ssa.Call); ok {
+				if callee := ssax.StaticCallee(cl); callee != nil && callee.Name() == "Data" {
+					s.Counts["loaded"] = 1
+				}
+			}
+		},
+		Branch: func(s *ssax.PathState, cond ssa.Value, taken bool) {
+			cnd, val := ssax.StripNot(cond, taken)
+			if cl, ok := cnd.(*ssa.Call); ok && isIsDirCall(cl) && val {
+				s.Counts["isdir"] = 1
+			}
+		},
+		End: func(s *ssax.PathState, last ssa.Instruction) {
+			r, ok := last.(*ssa.Return)
+			if !ok || len(r.Results) < 2 {
+				return
+			}
+			ev := s.Resolve(r.Results[1])
+			if (ssax.IsNilConst(ev) || s.NilOf(ev) == ssax.IsNil) && s.Counts["loaded"] == 0 && s.Counts["isdir"] == 0 && badRet == nil {
+				badRet = r
+			}
+		},
+	})
+	if badRet != nil {
+		c.Bad("R02.7", key, p.Pos(badRet.Pos()), fmt.Sprintf("%s returns the handle's info without loading the content: Size() is then the size recorded when the handle was opened, not the file's current size after another handle grew or shrank it", fname(fn)))
+	} else {
+		c.OK("R02.7", key, p.Pos(fn.Pos()), "the content is loaded before the info of a regular file is returned")
+	}
+}
+
+// r02PositionedAppend (R02.8)
+func r02PositionedAppend(c *core.Ctx, p *load.Program, fileT *types.Named) {
+	appendK := constOf(p, "FlagAppend")
+	ms := methodsOf(p, fileT)
+	// the write primitive: the method with the O_APPEND redirect
+	var prim *ssa.Function
+	for _, fn := range ms {
+		if fn.Blocks == nil {
+			continue
+		}
+		found := false
+		ssax.Instrs(fn, func(ins ssa.Instruction) {
+			if ifi, ok := ins.(*ssa.If); ok && mentionsConst(ifi.Cond, appendK, 0) {
+				// and it mutates content
+				found = true
+			}
+		})
+		mut := blobFuncs(p, "Set", "Grow")
+		mutates := false
+		ssax.Instrs(fn, func(ins ssa.Instruction) {
+			if cl, ok := ins.(*ssa.Call); ok && mut[ssax.StaticCallee(cl)] {
+				mutates = true
+			}
+		})
+		if found && mutates {
+			prim = fn
+		}
+	}
+	if prim == nil || appendK == 0 {
+		c.Hard("anchor: keyvalue.file write primitive with the O_APPEND redirect")
+		return
+	}
+	var names []string
+	for n := range ms {
+		names = append(names, n)
+	}
+	sort.Strings(names)
+	for _, name := range names {
+		fn := ms[name]
+		if fn == prim || fn.Blocks == nil {
+			continue
+		}
+		ssax.Instrs(fn, func(ins ssa.Instruction) {
+			cl, ok := ins.(*ssa.Call)
+			if !ok || ssax.StaticCallee(cl) != prim {
+				return
+			}
+			positioned := false
+			for _, a := range cl.Call.Args {
+				if prm, ok := a.(*ssa.Parameter); ok {
+					if bt, ok := prm.Type().Underlying().(*types.Basic); ok && bt.Kind() == types.Int64 {
+						positioned = true
+					}
+				}
+			}
+			if !positioned {
+				return
+			}
+			key := typeKey(fileT) + "." + name + "|positioned-write-refuses-append"
+			// path-sensitive: on every path to the call the append flag was tested, or the handle is known closed
+			// (the primitive then answers ErrClosed itself)
+			guarded, reached := true, false
+			ssax.EnumPaths(fn, fn.Blocks[0], 0, nil, ssax.PathHooks{
+				Branch: func(s *ssax.PathState, cond ssa.Value, taken bool) {
+					cnd, val := ssax.StripNot(cond, taken)
+					if mentionsConst(cnd, appendK, 0) {
+						s.Counts["flag"] = 1
+					}
+					if x, eq, ok := ssax.NilTest(cnd); ok && eq == val {
+						if _, _, isField := ssax.FieldLoad(x); isField {
+							s.Counts["closed"] = 1
+						}
+					}
+				},
+				Instr: func(s *ssax.PathState, i2 ssa.Instruction) {
+					if i2 == ssa.Instruction(cl) {
+						reached = true
+						if s.Counts["flag"] == 0 && s.Counts["closed"] == 0 {
+							guarded = false
+						}
+					}
+				},
+			})
+			guarded = guarded && reached
+			c.Check(guarded, "R02.8", key, p.Pos(cl.Pos()), "the positioned write is made only where the append flag was tested",
+				fmt.Sprintf("%s passes its offset to the write primitive without testing the append flag: on a handle opened with O_APPEND the bytes are appended instead of written at the offset asked for, and the call reports success — os.File refuses WriteAt on such a handle", fname(fn)))
+		})
+	}
+}
